@@ -1,6 +1,7 @@
 import BadgerProofs.Props.C01Reach
 import BadgerProofs.Lemmas.DbInv
 import BadgerProofs.Lemmas.Txn
+import BadgerModel.Reopen
 /-!
 # C01 / C03 / C34 composed: snapshot reads of the whole database model, for every history
 
@@ -45,6 +46,12 @@ inductive DbReach (o : Opts) : List Ent → Db → Prop
       DbReach o hist { d with lsm := d.lsm.flush fid }
   | tick {hist : List Ent} {d : Db} (r : DbReach o hist d) (now' : Nat) (h : d.now ≤ now') :
       DbReach o hist { d with now := now' }
+  /-- `Close` (flush of the memtable) + `Open` on the same directory. Premise: the timestamps do
+      not go back, i.e. the newest committed version is still stored (`MaxVersion()` counts stored
+      entries only; the excluded case is finding F29: timestamps reused after a restart). -/
+  | reopen {hist : List Ent} {d : Db} (r : DbReach o hist d) (fid : Nat)
+      (hnext : d.nextTs ≤ ({ d with lsm := d.lsm.flush fid } : Db).closeOpen.nextTs) :
+      DbReach o hist ({ d with lsm := d.lsm.flush fid } : Db).closeOpen
   | compact {hist : List Ent} {d : Db} {s' : Lsm} (r : DbReach o hist d) (cd : CompactDef) (dts : Nat)
       (hd : dts ≤ d.discardAtOrBelow)
       (hi : ChoiceIdxOk d.lsm cd) (htop : cd.top ≠ []) (hvc : validChoice d.lsm cd = true)
@@ -397,6 +404,60 @@ theorem commit_inv (hm : o.managed = false) (h : Inv o hist d) (id : Nat) (hmax 
         rw [setTxn_readMark, setTxn_txns, doneRead_txns, setTxn_nextTs, doneRead_nextTs] at this
         exact this.mono (Nat.le_succ _)
 
+theorem insertById_perm (t : Tbl) (l : List Tbl) : (insertById t l).Perm (t :: l) := by
+  induction l with
+  | nil => exact List.Perm.refl _
+  | cons x xs ih =>
+    unfold insertById
+    split
+    · exact List.Perm.refl _
+    · exact (List.Perm.cons x ih).trans (List.Perm.swap t x xs)
+
+theorem sortTblsById_perm (l : List Tbl) : (sortTblsById l).Perm l := by
+  induction l with
+  | nil => exact List.Perm.refl _
+  | cons x xs ih =>
+    show (insertById x (sortTblsById xs)).Perm (x :: xs)
+    exact (insertById_perm x _).trans (List.Perm.cons x ih)
+
+theorem wm_done_fresh (mv : Nat) : (({} : Wm).done mv) = { pend := [], doneUntil := mv } := by
+  simp [Wm.done, Wm.bump, Wm.bump.ins, Wm.advance, Wm.advance.go]
+
+theorem closeOpen_fields (d : Db) :
+    d.closeOpen.opts = d.opts ∧ d.closeOpen.now = d.now ∧ d.closeOpen.txns = [] ∧ d.closeOpen.committed = [] ∧
+    d.closeOpen.readMark = { pend := [], doneUntil := d.closeOpen.nextTs - 1 } ∧ 0 < d.closeOpen.nextTs ∧
+    (d.closeOpen.lsm = d.lsm ∨ ∃ l0 rest, d.lsm.levels = l0 :: rest ∧
+      d.closeOpen.lsm = { d.lsm with levels := sortTblsById l0 :: rest }) := by
+  refine ⟨rfl, rfl, rfl, rfl, ?_, Nat.succ_pos _, ?_⟩
+  · show (({} : Wm).done _) = _
+    rw [wm_done_fresh]; rfl
+  · unfold Db.closeOpen
+    cases hl : d.lsm.levels with
+    | nil => left; rfl
+    | cons l0 rest => right; exact ⟨l0, rest, rfl, rfl⟩
+
+theorem reopen_inv (h : Inv o hist d) (fid : Nat)
+    (hnext : d.nextTs ≤ ({ d with lsm := d.lsm.flush fid } : Db).closeOpen.nextTs) :
+    Inv o hist ({ d with lsm := d.lsm.flush fid } : Db).closeOpen := by
+  have h1 := flush_inv h fid
+  obtain ⟨dm, nm, R, a, b⟩ := h1.l.reach
+  have hlt := h.w.untilLt
+  obtain ⟨fo, fn, ft, _, fr, fp, fl⟩ := closeOpen_fields ({ d with lsm := d.lsm.flush fid } : Db)
+  generalize ({ d with lsm := d.lsm.flush fid } : Db).closeOpen = d' at *
+  have hR : Reach o.maxLevels hist dm nm d'.lsm := by
+    rcases fl with e | ⟨l0, rest, hl, e⟩
+    · rw [e]; exact R
+    · rw [e]; exact Reach.resort R hl (sortTblsById_perm l0)
+  have a' : dm ≤ d.readMark.doneUntil := a
+  have b' : nm ≤ d.now := b
+  refine ⟨⟨by rw [fo]; exact h.l.opts, ⟨dm, nm, hR, ?_, by rw [fn]; exact b'⟩, ?_, fp⟩, ?_⟩
+  · rw [fr]; show dm ≤ d'.nextTs - 1; omega
+  · intro x hx
+    have := h.l.histLt x hx
+    omega
+  · rw [fr, ft]
+    exact ⟨⟨by simp [WmL.Sorted], by simp⟩, by show d'.nextTs - 1 < d'.nextTs; omega, by simp, by simp [openCount], by simp⟩
+
 theorem inv_of_reach (hm : o.managed = false) (r : DbReach o hist d) : Inv o hist d := by
   induction r with
   | init now => exact init_inv o now
@@ -408,6 +469,7 @@ theorem inv_of_reach (hm : o.managed = false) (r : DbReach o hist d) : Inv o his
   | commit _ id hmax ih => exact commit_inv hm ih id hmax
   | flush _ fid ih => exact flush_inv ih fid
   | tick _ now' hn ih => exact tick_inv ih now' hn
+  | reopen _ fid hnext ih => exact reopen_inv ih fid hnext
   | compact _ cd dts hd hi htop hvc hdp hs hcut ih => exact compact_inv hm ih cd dts hd hi htop hvc hdp hs hcut
 
 end DbL
